@@ -13,8 +13,11 @@
 package main
 
 import (
+	"encoding/json"
 	"fmt"
+	"go.sia.tech/core/consensus"
 	"math/rand/v2"
+	"reflect"
 	"strconv"
 
 	"go.sia.tech/core/types"
@@ -29,12 +32,51 @@ func runHistories(b *harness.B) {
 	blocks := b.Pick(150, 500)
 	for i := 0; i < nNets; i++ {
 		fam := chaingen.Families[(b.Batch+i)%len(chaingen.Families)]
+		if b.Batch%4 == 2 && i == 0 {
+			fam = "legacywin" // long window in which in-block siafund parents (with whatever proof a relayer attached) are legal
+		}
 		rng := b.SubRng(fmt.Sprint("net", i))
 		net := chaingen.GenNet(rng, fam, b.Batch*100+i)
 		c := chaingen.NewChain(net, rng)
 		mon := chainmon.NewForestMon("C05", b)
 		spent := newSpentTracker(b, c, mon)
 		mon.OnApply(c.GenesisEvent)
+		// a client that receives its updates in their JSON form: before the store applies a block, a sample of the
+		// proofs it holds is brought up to date once with the update and once with the update's JSON round trip
+		c.OnApply = func(ev chaingen.ApplyEvent) {
+			if ev.Next.Index.Height%3 != 0 {
+				return
+			}
+			js, err := json.Marshal(ev.AU)
+			var au2 consensus.ApplyUpdate
+			if err != nil || json.Unmarshal(js, &au2) != nil {
+				b.Violate("C05/update-json/does-not-round-trip", "an ApplyUpdate does not survive its own JSON form", nil)
+				return
+			}
+			n := 0
+			for _, id := range c.S.OrderedSC() {
+				if n >= 8 {
+					break
+				}
+				e := c.S.SCEs[id]
+				touched := false
+				for _, d := range ev.AU.SiacoinElementDiffs() {
+					touched = touched || d.SiacoinElement.ID == id
+				}
+				if touched {
+					continue
+				}
+				n++
+				s1, s2 := e.StateElement.Copy(), e.StateElement.Copy()
+				ev.AU.UpdateElementProof(&s1)
+				au2.UpdateElementProof(&s2)
+				b.Count("proofs_updated_from_the_json_form_of_an_update", 1)
+				if !reflect.DeepEqual(s1.MerkleProof, s2.MerkleProof) && (len(s1.MerkleProof) > 0 || len(s2.MerkleProof) > 0) {
+					b.Violate("C05/update-json/proof-updated-from-json-differs", fmt.Sprintf("element at leaf %d: UpdateElementProof with the JSON round trip of the update of height %d gives another proof than with the update itself", s1.LeafIndex, ev.Next.Index.Height), map[string]any{"height": ev.Next.Index.Height, "kinds": ev.Kinds})
+					break
+				}
+			}
+		}
 		c.OnStoreApplied = func(ev chaingen.ApplyEvent) {
 			if len(ev.Kinds) >= 3 {
 				b.Sample(chaingen.DescribeBlock(ev.Prev, ev.Block, ev.Kinds))
@@ -78,6 +120,9 @@ func runHistories(b *harness.B) {
 		for k, v := range c.Stats {
 			if len(k) > 12 && k[:12] == "gen_rejected" {
 				b.Count("generator_library_disagreement:"+k, v)
+			}
+			if k == "ephemeral_parent_with_attached_proof" || k == "ephemeral_siafund_parent_with_attached_proof" {
+				b.Count(k, v)
 			}
 		}
 		if i == 0 {
